@@ -103,6 +103,19 @@ CHECKS["C09"] = (
     "DESIGN.md section 3 / C09",
 )
 
+CHECKS["C10"] = (
+    "model-based stateful search: generated programs over every public operation family with a frame-condition snapshot after every step",
+    "Seeded Hypothesis search over operation programs covering every public operation family (traversal, Tree "
+    "queries, xpath, patterns, visitors/transformers incl. raising rules, duplicate, replace ok/failing, "
+    "dataclasses.replace, detach, all serialization formats and options incl. re-creation with forced ids, "
+    "comparison/hash, accessors, rich rendering, setattr/delattr); after every step the snapshot (identity of "
+    "children/origin, typed property values, id, content_id, hash) of every pre-existing node and its registry "
+    "membership (allowed to change only for detach/replace receivers) are compared; plus a systematic part that "
+    "reads a serialized tree back under every drawn subset of still-registered nodes. Bounded exploration.",
+    "Trusts Hypothesis and the snapshot of pbt/frame.py (dataclass fields, id, content_id, hash).",
+    "DESIGN.md section 3 / C10",
+)
+
 NOT_YET = "check not built yet in this snapshot (see DESIGN.md section 9 build order); nothing is claimed"
 
 
